@@ -26,7 +26,7 @@ EEPS = 1e-12
 YOUNG = 128.
 SEPS = YOUNG * EEPS
 CAP = 1000000
-ITMAX_NL = 1000       # @MaximumNumberOfIterations of the nonlinear problems (default: 100)
+ITMAX_NL = 20000      # @MaximumNumberOfIterations of the nonlinear problems (default 100; Crossed2Deltabis with the elastic operator needs up to ~1100)
 ITMAX_TRACE = 40      # ... of the runs whose log is validated (so that failed attempts are seen too)
 BATCH = 24
 
